@@ -19,7 +19,7 @@ func init() {
 	Register(&Rule{
 		ID:    "R-REC",
 		Doc:   "type-resolved call graph (VTA) restricted to steady-state code: every cycle that follows input nesting or value indirection contains a function with a depth guard (increment of a counter in the by-value state or a parameter, compared with a limit); the pointer-cycle guard of json's encodePointer is keyed by the loaded pointee and its state is passed on; re-entry through Append resets that state",
-		Props: []string{"C06", "C07", "C08", "C02", "C05"},
+		Props: []string{"C06", "C07", "C08", "C02", "C05", "C14"},
 		Min:   map[string]int{"C06": 20, "C07": 1, "C08": 1, "C02": 8, "C05": 3},
 		Run:   runRec,
 	})
@@ -674,6 +674,54 @@ func runRec(c *core.Ctx) []core.Obligation {
 			b.addP([]string{"C06"}, core.Violation, key, bad, fmt.Sprintf("%s keys the cycle detector by something other than the reference loaded from the value (the pointee, the map, the slice's backing array): slots reached through fresh temporaries (map values, top-level values) never repeat, so cycles through them are not detected", shortName(fn)))
 		} else {
 			b.addP([]string{"C06"}, core.Discharged, key, c.FuncPos(fn), "ptrSeen is keyed by the reference loaded from the value")
+		}
+		// the guard comes before every recursive step of the function: a fast path (the unsorted
+		// map encoding) that recurses before the counter is touched is outside the detector
+		var incBlk *ssa.BasicBlock
+		for _, blk := range fn.Blocks {
+			for _, in := range blk.Instrs {
+				if st, ok := in.(*ssa.Store); ok {
+					if fa, isFA := st.Addr.(*ssa.FieldAddr); isFA && strings.HasSuffix(fieldAddrID(fa), "encoder.ptrDepth") {
+						if _, isAdd := st.Val.(*ssa.BinOp); isAdd && incBlk == nil {
+							incBlk = blk
+						}
+					}
+				}
+			}
+		}
+		if incBlk != nil {
+			outside := ""
+			for _, ci := range callsIn(fn) {
+				cc := ci.Common()
+				recursive := false
+				if f := staticCallee(cc); f != nil {
+					if f.Signature.Recv() != nil && namedKey(f.Signature.Recv().Type()) == "json.encoder" {
+						switch f.Name() {
+						case "appendValue", "encodeInterface", "encodeMaybeEmptyInterface", "encodeStruct", "encodeMapStringInterface":
+							recursive = true
+						default:
+							// an encoder method that is handed the encoder of a component
+							for i := 0; i < f.Signature.Params().Len(); i++ {
+								if strings.Contains(f.Signature.Params().At(i).Type().String(), "encodeFunc") {
+									recursive = true
+								}
+							}
+						}
+					}
+				} else if !cc.IsInvoke() {
+					if _, isB := cc.Value.(*ssa.Builtin); !isB && strings.Contains(cc.Value.Type().String(), "encodeFunc") {
+						recursive = true
+					}
+				}
+				if recursive && !(incBlk == ci.Block() || incBlk.Dominates(ci.Block())) {
+					outside = c.InstrPos(ci)
+				}
+			}
+			if outside != "" {
+				b.addP([]string{"C06", "C14"}, core.Violation, "cycle-guard:dominates:"+shortName(fn), outside, fmt.Sprintf("%s encodes nested values on a path that does not pass through its cycle guard (the depth counter is incremented elsewhere in the function): a value that contains itself through that path — a map[string]any holding itself, encoded without SortMapKeys — recurses until the stack is exhausted, while the other flag settings report the cycle", shortName(fn)))
+			} else {
+				b.addP([]string{"C06", "C14"}, core.Discharged, "cycle-guard:dominates:"+shortName(fn), c.FuncPos(fn), "every nested encoding step comes after the cycle guard")
+			}
 		}
 		if hasDepthGuard(fn) {
 			b.addP([]string{"C06"}, core.Discharged, "cycle-guard:counter:"+shortName(fn), c.FuncPos(fn), "ptrDepth is incremented and compared with the limit")
